@@ -103,4 +103,23 @@ def c_vlq(cex, obs):
     return False, 'native encoding of the delta is the reference spelling'
 
 
-CONFIRM = {'decode': c_decode, 'decode_bytes': c_decode, 'decoder_step': c_decode, 'roundtrip': c_roundtrip, 'lines_only': c_lines_only, 'vlq': c_vlq}
+def c_tree(cex, obs):
+    from . import oracles
+    props = cex.get('props')
+    msgs = []
+    for prof, o in obs.items():
+        if o.get('panicked'): return True, '%s build panics while building / observing the tree: %s' % (prof, o.get('message'))
+        if o.get('panics'):
+            return True, '%s build panics in %s' % (prof, json_short(o['panics']))
+        if 'source' not in o: o['source'] = oracles.provenance(o['tree'])[0]
+        vs = oracles.judge(o, props)
+        if vs: return True, '%s build: %s' % (prof, '; '.join('%s: %s' % v for v in vs[:2]))
+    return False, 'native observations satisfy the oracles'
+
+
+def json_short(x):
+    import json
+    return json.dumps(x)[:300]
+
+
+CONFIRM = {'tree': c_tree, 'decode': c_decode, 'decode_bytes': c_decode, 'decoder_step': c_decode, 'roundtrip': c_roundtrip, 'lines_only': c_lines_only, 'vlq': c_vlq}
